@@ -42,7 +42,9 @@ class P:
                 n = sum(f[0] for f in faults) + int(sum(f[2] for f in faults) / gap) + 12 * nf + 25
             msgs = [self.rand_msg(rng, j) for j in range(n)]
             if proto == "udp":
-                msgs = [m for m in msgs if len(m) < 60000]
+                # one datagram per message: keep them within a datagram and pace them so that the sink's socket buffer can not overflow
+                msgs = [m for m in msgs if len(m) < 9000]
+                gap = 2
             line = "producer %s %d %d F %s M %s" % (proto, retry, gap, " ".join("%d %d %d" % f for f in faults), " ".join(hx(m) for m in msgs))
             self.meta[line] = (proto, retry, gap, faults, msgs)
             out.append(line)
